@@ -48,5 +48,8 @@ verus! {
 
 //%slice parser.rs classify_member fn parse_mapping ;; nth=2:match identifier.pattern { ;; block ;; fn classify_member(identifier: Identifier, e: Expression, f: String, cast: bool, exact: &mut Vec<Identifier>, starts_with: &mut Vec<Identifier>, ends_with: &mut Vec<Identifier>, contains: &mut Vec<Identifier>, regex: &mut Vec<Identifier>, rest: &mut Vec<Expression>, mut string: bool, mut number: bool) -> (bool, bool) ;; (string, number)
 
+//%slice parser.rs entry_tail fn parse_mapping ;; if let Some(ModSym::Not) = misc { ;; block +2 ;; fn entry_tail(misc: Option<ModSym>, expression: Expression, expressions: &mut Vec<Expression>) ;; -
+//%slice parser.rs mapping_tail fn parse_mapping ;; if expressions.is_empty() { ;; Ok(Expression::BooleanGroup(BoolSym::And, expressions)) ;; fn mapping_tail(expressions: Vec<Expression>) -> crate::Result<Expression> ;; -
+
 } // verus!
 fn main() {}
